@@ -2370,6 +2370,40 @@ func repoResolveHandler(c web.C, w http.ResponseWriter, r *http.Request) {
 		newParents[i] = dvid.NilUUID
 	}
 
+	// The final merge needs distinct, committed parents of one repo.  Check that before any
+	// version for deletions is created, since a refused request must not leave versions behind.
+	for i, parent := range oldParents {
+		for _, earlier := range oldParents[:i] {
+			if earlier == parent {
+				BadRequest(w, r, fmt.Sprintf("parent %s listed more than once", parent))
+				return
+			}
+		}
+		locked, err := datastore.LockedUUID(parent)
+		if err != nil {
+			BadRequest(w, r, err)
+			return
+		}
+		if !locked {
+			BadRequest(w, r, fmt.Sprintf("parent %s must be committed before it can be merged", parent))
+			return
+		}
+		root, err := datastore.GetRepoRoot(parent)
+		if err != nil {
+			BadRequest(w, r, err)
+			return
+		}
+		firstRoot, err := datastore.GetRepoRoot(oldParents[0])
+		if err != nil {
+			BadRequest(w, r, err)
+			return
+		}
+		if root != firstRoot {
+			BadRequest(w, r, fmt.Sprintf("parent %s is not in the repo of parent %s", parent, oldParents[0]))
+			return
+		}
+	}
+
 	// Iterate through all k/v for given data instances, making sure we find any conflicts.
 	// If any are found, remove them with first UUIDs taking priority.
 	for _, name := range jsonData.Data {
